@@ -308,6 +308,21 @@ def run_identity(case):
       g.check_members(o, 'identity', 'on-grid input')
     moved = np.abs(out - g.v) > g.eps
     counts = moved.sum(axis=0)
+    if positions_exact_in_float32(v, levels_of(case)):
+      # Every normalised position (v - min)/(max - min) * (L-1) is an integer
+      # without any rounding, whichever way the division is carried out: lower
+      # and upper cell boundary coincide and NO draw -- not even a uniform draw
+      # of exactly 0.0 -- may move a coordinate.
+      if counts.max() > 0:
+        coord = tuple(int(x) for x in np.argwhere(counts > 0)[0])
+        key_i = int(np.argwhere(moved[(slice(None),) + coord])[0][0])
+        raise Violation(
+            'identity:on_grid_changed_although_positions_are_exact',
+            f'coordinate {coord} (input {g.v[coord]!r}, level {g.t[coord]!r} of {g.n}) '
+            f'changed for key index {key_i} of split(PRNGKey({case["seed"]}), {case["K"]}): '
+            f'{out[(key_i,) + coord]!r}; min {g.lo!r} max {g.hi!r}')
+      extra.append('on_grid_positions_exact')
+      return extra
     p_max = min(1.0, 32 * U * g.n + 2.0 ** -22)
     limit = binomial_limit(case['K'], p_max)
     worst = int(counts.max())
@@ -340,6 +355,27 @@ def run_identity(case):
           f'{idx[0]} coordinate {coord} input {g.v[coord]!r} -> {o[idx]!r} (min '
           f'{g.lo!r} max {g.hi!r}, seed {case["seed"]} K {case["K"]})')
   return extra
+
+
+def positions_exact_in_float32(v, levels):
+  """True when (v - min) / (max - min) * (L - 1) is an exact integer in float32
+  for every coordinate, both with a true division and with a multiplication by
+  the rounded reciprocal (what XLA:CPU does)."""
+  x = np.asarray(v, np.float32).ravel()
+  lo, hi = x.min(), x.max()
+  rng_ = np.float32(hi - lo)
+  if not np.isfinite(rng_) or rng_ == 0:
+    return False
+  n = np.float32(levels - 1)
+  d = np.float32(x - lo)
+  if not np.array_equal(d.astype(np.float64), x.astype(np.float64) - np.float64(lo)):
+    return False
+  for t in (np.float32(d / rng_), np.float32(d * np.float32(np.float32(1.0) / rng_))):
+    sc = np.float32(t * n)
+    exact = sc.astype(np.float64) == (d.astype(np.float64) / np.float64(rng_)) * np.float64(n)
+    if not (exact.all() and np.array_equal(sc, np.rint(sc))):
+      return False
+  return True
 
 
 @functools.lru_cache(maxsize=None)
@@ -1331,6 +1367,53 @@ def independence_labels(case):
           'L:%d' % case['levels']]
 
 
+# ------------------------------- binary quantizer on bfloat16 / float16 inputs
+
+@functools.lru_cache(maxsize=None)
+def _binary_vmapped(dtype_name):
+  return jax.jit(jax.vmap(lambda k, v: C.binary_stochastic_quantize(v, k),
+                          in_axes=(0, None)))
+
+
+def run_binary_low_precision(case):
+  """Unbiasedness of the binary quantizer for low-precision inputs.  The vector is
+  [lo, hi, x, x, ..., x] with x at relative position 2^-j (exactly representable
+  in the dtype): each x must come out as hi with probability exactly 2^-j.  The
+  number of ups, pooled over K keys and n-2 equal coordinates, is compared with
+  Chernoff bounds at 1e-17."""
+  dt = {'bfloat16': jnp.bfloat16, 'float16': jnp.float16, 'float32': jnp.float32}[case['dtype']]
+  n, k, j = case['n'], case['K'], case['j']
+  lo, hi = 0.0, 2.0 ** case['e']
+  x = hi * 2.0 ** -j
+  v = jnp.asarray([lo, hi] + [x] * (n - 2), dtype=dt)
+  require(float(v[2]) == x, 'harness:position_not_representable', f'{x!r} in {case["dtype"]}')
+  keys = keys_from(case['seed'], k)
+  out = np.asarray(_binary_vmapped(case['dtype'])(keys, v).astype(jnp.float32), np.float64)
+  require(out.shape == (k, n), 'output_shape_or_dtype', f'{out.shape}')
+  require(bool(np.isin(out, [lo, hi]).all()), 'binary:output_not_min_or_max',
+          lambda: f'{np.unique(out)[:6].tolist()}')
+  require(bool((out[:, 0] == lo).all() and (out[:, 1] == hi).all()),
+          'binary:extremes_moved', 'the minimum / maximum coordinate changed')
+  ups = int((out[:, 2:] == hi).sum())
+  total = k * (n - 2)
+  mu = total * 2.0 ** -j
+  up_bound = mu * (1 + math.sqrt(3 * 39.2 / mu))
+  lo_bound = mu * (1 - math.sqrt(2 * 39.2 / mu))
+  require(lo_bound <= ups <= up_bound, 'binary:biased_for_low_precision_input',
+          f'{case["dtype"]} input at relative position 2^-{j}: rounded up {ups} times in '
+          f'{total} draws, expected {mu:.0f} (accepted {lo_bound:.0f}..{up_bound:.0f}): '
+          f'P(up) is {ups / total:.3e} instead of {2.0 ** -j:.3e}')
+  return []
+
+
+@st.composite
+def binary_low_precision_case(draw, tier):
+  dtype = draw(st.sampled_from(['bfloat16', 'float16', 'float32', 'bfloat16', 'float16']))
+  return {'dtype': dtype, 'j': draw(st.sampled_from([9, 11] if dtype != 'bfloat16' else [9, 11, 7])),
+          'e': draw(st.integers(-6, 6)), 'n': 258, 'K': 2000 if tier == 'quick' else 8000,
+          'seed': draw(SEEDS)}
+
+
 CHECKS = [
     Check(name='quantize_grid', run=run_grid,
           strategy=lambda tier: q_case(tier, 'grid'),
@@ -1355,6 +1438,14 @@ CHECKS = [
           doc='statistical: mean over K keys equals the input per coordinate '
               'within the Hoeffding bound step*sqrt(20/K) (false alarm 8.5e-18 '
               'per coordinate)'),
+    Check(name='binary_low_precision_inputs', run=run_binary_low_precision,
+          strategy=binary_low_precision_case,
+          labels=lambda c: ['dtype:' + c['dtype'], 'position:2^-%d' % c['j']],
+          nontrivial=lambda c, ls: c['dtype'] != 'float32',
+          budget={'quick': 48, 'thorough': 480}, time_share=0.6,
+          doc='binary quantizer on bfloat16 / float16 / float32 vectors: a coordinate '
+              'at relative position 2^-j rounds up with probability 2^-j (pooled '
+              'binomial test over keys x equal coordinates, Chernoff bounds at 1e-17)'),
     Check(name='terngrad_quantize', run=run_terngrad,
           strategy=lambda tier: q_case(tier, 'terngrad'),
           labels=q_labels, nontrivial=q_nontrivial,
